@@ -13,6 +13,7 @@ LOOP / CLEAN      nothing written while clipping one polyline is read while clip
 from ..astq import AstDB
 from ..engines import e3_tables as e3
 from ..engines import e2_state as e2
+from ..engines import e9_safety as e9
 from ..extract import AnalysisBroken
 from .c12 import RECT
 
@@ -26,7 +27,7 @@ def run(chk):
              "below resp. left / level / right - and every possible (entry, exit) pair of sides; false and loc unchanged when nothing is crossed (76 cells)")
     chk.rule("T.next-location", "GetNextLocation (shared by both clippers): from each side region the next vertex is classified on every ordering against the rectangle")
     chk.rule("T.touching", "GetSegmentIntersection with an end point W on the line of the other segment (a, b): true exactly when W lies strictly between a "
-             "and b - all orderings, W = p1..p4, horizontal and vertical other segment in both directions (48 cells)")
+             "and b - all orderings, W = p1..p4, horizontal and vertical other segment in both directions; also true with W on a or b itself, the shared end point (80 cells)")
     chk.rule("POLY.intersect", "GetSegmentIntersection: an end point stored as the intersection under `cross == 0` lies on both lines (identically, or by the "
              "guard's equation); the general case hands both segments to GetSegmentIntersectPt, whose result lies on both lines (polynomial normal forms)")
     chk.rule("BOUNDS.minmax", "GetBounds (behind the bounding-box shortcuts) updates min and max with every vertex, the first one included")
@@ -42,6 +43,8 @@ def run(chk):
              "into x quantities, y with y (the high-precision variant's local origin is taken per axis; a wrong one costs precision, not algebra)")
     chk.rule("SCAN.start", "the segment scan of ExecuteInternal starts at segment 1 on every path (constant propagation of the cursor: the pre-scan for a "
              "vertex off the boundary must not leave it advanced)")
+    chk.rule("INT64.product", "no product is formed in a signed 64-bit integer type: the cross products behind GetSegmentIntersection (which side of a "
+             "rectangle edge a vertex lies on) are formed in double; in int64 they wrap for rectangles above 2^31.5 and every crossing is lost")
     chk.rule("LOOP", "nothing written while clipping one polyline is read while clipping the next")
     chk.rule("CLEAN", "the scratch containers are empty again at every normal exit of RectClipLines64::Execute")
     from ..engines import e14_poly as _e14a
@@ -52,6 +55,7 @@ def run(chk):
         db = AstDB(cfg)
         e3.location_table(db, chk, cfg)
         e3.bounds_update_table(db, chk, cfg)
+        e9.rule_int64_product(db, chk, cfg)
         from ..engines import e14_poly as e14
         e3.next_location_table(db, chk, cfg)
         e14.rule_segment_cases(db, chk, cfg)
